@@ -31,6 +31,7 @@ func c05(c *Ctx) {
 		"(primary) the captured primary slot is assigned only under entry.IsPrimary()==true of that entry (or from Handle.Primary()); " +
 		"(log) every Logger.Log(id, …) names a key ID read from the same pair object whose operation's success dominates the call (accepting side) or from the primary slot that produced the output; " +
 		"(accept) in every wrapper holding a prefix map, accepting operations (Decrypt/Verify/VerifyMAC/DecryptDeterministically) are applied only to candidates returned by PrimitivesMatchingPrefix(input).Next(); " +
+		"(prefixfn) every key type's output-prefix function, folded on every variant constant and on key IDs 0, 1, 0x01020304, 0xffffffff: failure / no prefix / prefix depends on the variant only (0 is a legal key ID), TINK/CRUNCHY/LEGACY give a prefix, NO_PREFIX/RAW none, and the ID encoded is the function's parameter. " +
 		"(prefixmap) lookup uses exactly the first NonRawPrefixSize bytes under a length guard and always appends the prefix-less bucket. " +
 		"Not decided: the behaviour of the wrapped primitives; rotation histories (manager side: C11)."
 	pfk := "internal/factoryutil.PrimitiveFromKey"
@@ -333,6 +334,7 @@ func c05(c *Ctx) {
 	r.Min("C05.pairing", 30)
 	r.Min("C05.primary", 6)
 	c05Log(c)
+	c05PrefixFns(c)
 	c05PrefixMap(c)
 	c05Accept(c)
 	idZeroRule(c, "C05.idzero", func(rel string) bool { return !strings.HasPrefix(rel, "keyset") && !strings.HasPrefix(rel, "proto/") && !strings.HasPrefix(rel, "internal/protoserialization") })
